@@ -108,7 +108,28 @@ func vC05Bundle(r *vRand, roots []cciptypes.MerkleRootChain, nsigs int) (*rmn.Re
 			case "one-root":
 				x.MerkleRoot[31] ^= 1
 			case "one-addr":
-				x.OnRampAddress = append(x.OnRampAddress, 0)
+				// the address deviates in exactly one way: a byte appended / prepended, the first or the last byte
+				// changed, or cut to its rightmost 20 bytes
+				way := r.Intn(5)
+				if len(x.OnRampAddress) == 0 {
+					way = 0
+				}
+				switch way {
+				case 0:
+					x.OnRampAddress = append(x.OnRampAddress, 0)
+				case 1:
+					x.OnRampAddress = append([]byte{0}, x.OnRampAddress...)
+				case 2:
+					x.OnRampAddress[0] ^= 0x40
+				case 3:
+					x.OnRampAddress[len(x.OnRampAddress)-1] ^= 0x40
+				default:
+					if len(x.OnRampAddress) > 20 {
+						x.OnRampAddress = x.OnRampAddress[len(x.OnRampAddress)-20:]
+					} else {
+						x.OnRampAddress[0] ^= 0x01
+					}
+				}
 			case "subset":
 				continue
 			case "duplicate":
